@@ -25,6 +25,7 @@ proof fn axiom_vec_len<T>(v: &Vec<T>)
 //@unit src/whitespace.rs fn operations as=operations(total)
 //@rule R4
 //@rule R15_collect
+#[verifier::loop_isolation(false)]
 pub fn operations(from: &str, to: &str, use_graphemes: bool) -> (res: VtResult<Vec<Operation>>)
     ensures res.is_ok() ==> res.unwrap().len() == chars_of(from, use_graphemes).len(),
 {
